@@ -831,7 +831,15 @@ func (e *Exec) inRange(idx *Term, ni numInfo, n int) *Term {
 		return e.tb.And(e.tb.ILe(e.tb.Inti(0), idx), e.tb.ILt(idx, e.tb.Inti(int64(n))))
 	}
 	// unsigned compare covers negative values for signed types
-	return e.tb.bvCmp("bvult", idx, e.tb.BVi(idx.S.W, int64(n)))
+	w := idx.S.W
+	if w < 63 && int64(n) >= int64(1)<<uint(w) {
+		// every unsigned value of this width is below n
+		if ni.Signed {
+			return e.tb.Not(e.tb.bvCmp("bvslt", idx, e.tb.BVi(w, 0)))
+		}
+		return e.tb.True
+	}
+	return e.tb.bvCmp("bvult", idx, e.tb.BVi(w, int64(n)))
 }
 
 func (e *Exec) elemPtr(arr *Loc, off, n int, idx *Term, ni numInfo) Ptr {
